@@ -12,7 +12,9 @@ package main
 
 import (
 	"fmt"
+	"regexp"
 	"strings"
+	"sync"
 )
 
 type sx struct {
@@ -130,6 +132,67 @@ type skolemiser struct {
 	n       int
 	decls   []string
 	assumes []string
+	fnSort  map[string]string // result sort of declared functions and constants
+}
+
+var declRe = regexp.MustCompile(`\(declare-fun (\S+) \(([^)]*)\) ([^()\s]+)\)`)
+
+// sortTable collects the result sorts of everything declared for a query.
+func (x *Exec) sortTable(q *Query) map[string]string {
+	sortTableMu.Lock()
+	key := len(x.w.seqOrder)*1000003 + len(x.w.dtOrder)*1009 + len(x.w.extraDecl)
+	base := sortTableBase
+	if base == nil || sortTableKey != key {
+		base = map[string]string{}
+		for _, text := range []string{x.w.Prelude(true), codecPrelude(true), derPrelude(true), fmtPrelude(true), cryptoPrelude()} {
+			for _, mm := range declRe.FindAllStringSubmatch(text, -1) {
+				base[mm[1]] = mm[3]
+			}
+		}
+		for _, d := range x.w.dtOrder {
+			for i, f := range d.Fields {
+				base[d.Sel(i)] = f.Sort
+			}
+		}
+		sortTableBase, sortTableKey = base, key
+	}
+	sortTableMu.Unlock()
+	m := map[string]string{}
+	for _, d := range q.Decls {
+		for _, mm := range declRe.FindAllStringSubmatch(d, -1) {
+			m[mm[1]] = mm[3]
+		}
+	}
+	m[""] = "" // marker: lookups fall back to the shared base table
+	return m
+}
+
+var (
+	sortTableMu   sync.Mutex
+	sortTableBase map[string]string
+	sortTableKey  int
+)
+
+// seqSortOf returns the sequence sort of a term, or "" when it is not a sequence or not known.
+func (sk *skolemiser) seqSortOf(t *sx) string {
+	var so string
+	look := func(n string) string {
+		if v, ok := sk.fnSort[n]; ok {
+			return v
+		}
+		return sortTableBase[n]
+	}
+	if t.kids == nil {
+		so = look(t.atom)
+	} else if h := t.head(); h == "ite" && len(t.kids) == 4 {
+		return sk.seqSortOf(t.kids[2])
+	} else {
+		so = look(h)
+	}
+	if _, ok := sk.x.w.seqSorts[so]; ok {
+		return so
+	}
+	return ""
 }
 
 // resultSort gives the sort of a term from its head symbol where that is cheap to know.
@@ -157,6 +220,16 @@ func (sk *skolemiser) pos(n *sx) *sx {
 			out.kids = append(out.kids, sk.pos(k))
 		}
 		return out
+	case "=":
+		// a sequence equality to prove: name the extensionality witness, so that the
+		// solver may argue "same length and same element at the distinguishing index"
+		if len(n.kids) == 3 && sk.fnSort != nil {
+			if so := sk.seqSortOf(n.kids[1]); so != "" && so == sk.seqSortOf(n.kids[2]) {
+				sk.decls = append(sk.decls, "(declare-fun g_seen_Int (Int) Bool)")
+				sk.assumes = append(sk.assumes, app("g_seen_Int", app(so+"_diff", n.kids[1].String(), n.kids[2].String())))
+			}
+		}
+		return n
 	case "forall":
 		if len(n.kids) != 3 {
 			return n
@@ -195,15 +268,16 @@ func (sk *skolemiser) pos(n *sx) *sx {
 // skolemGoal returns an equi-valid goal without positive universal quantifiers,
 // the declarations of the constants introduced, and trivially satisfiable
 // trigger atoms to assume.
-func (x *Exec) skolemGoal(goal string) (string, []string, []string) {
-	if !strings.Contains(goal, "(forall ") {
+func (x *Exec) skolemGoal(q *Query) (string, []string, []string) {
+	goal := q.Goal
+	if !strings.Contains(goal, "(forall ") && !strings.Contains(goal, "(= ") {
 		return goal, nil, nil
 	}
 	t := parseSx(goal)
 	if t == nil {
 		return goal, nil, nil
 	}
-	sk := &skolemiser{x: x}
+	sk := &skolemiser{x: x, fnSort: x.sortTable(q)}
 	out := sk.pos(t)
 	seen := map[string]bool{}
 	var decls []string
